@@ -206,10 +206,12 @@ class C02(Check):
         'in-contract use only: every thread releases what it acquired',
     ]
     rule = ('Engine A cases = random scenarios (2-4 threads, 1-2 FileLock objects on one path, 1-3 rounds per '
-            'thread through acquire()/non-blocking/timed/acquire_ctx/with, reentrant with nested re-acquire or '
-            'not) under random/pct/stall schedules; non-trivial = at least two contenders attempted to acquire '
+            'thread through acquire()/non-blocking/timed/acquire_ctx/with, a private object dropped while held (abandon), '
+            'forced release (also of a nested hold), a private object whose quick attempt fails and that is dropped later '
+            '(stale); reentrant with nested re-acquire or not) under random/pct/stall schedules; non-trivial = at least two contenders attempted to acquire '
             'while one held (someone blocked, timed out or was refused) ; process cases = N processes x T '
-            'threads x R rounds with line-level sleep injection; distinct = distinct (case, baton-move '
+            'threads x R rounds with line-level sleep injection, holders forking a helper process inside the section in two '
+            'thirds of the cases (5-10 % of their sections); distinct = distinct (case, baton-move '
             'sequence) resp. distinct process cases')
 
     SIZES = {'quick': {'sim': 50000, 'stall': 4000, 'procs': 24},
